@@ -49,7 +49,9 @@ LEVEL_NOTE = ("Modelled per region and tied through the hook: variable creation,
               "polygon().offsetBoundingBox(0), junction position()/positionFixed() are read through the public API at the pass start "
               "and trusted. Route points shared by two parallel segments of one connector (a display route folding back onto "
               "itself) are written twice by the library; the region model's write-back check is suspended for such cases (counted: "
-              "finding.diagonal-after-shared-point, see reports/bN1.md). NOT modelled: the point "
+              "finding.diagonal-after-shared-point, see reports/bN1.md). The class cp-disp-unify is recognised either by the old "
+              "fingerprint (another connector without checkpoints) or directly from the pass snapshots (a checkpoint the cache records "
+              "inside a segment coincides with that segment's end vertex at the start of a pass). NOT modelled: the point "
               "orders (PtOrderMap) behind CmpLineOrder - of region formation and ordering necessary conditions are checked "
               "on the dump (no overlap across regions of one pass; adjacent segments respect the position / fixedOrder / order rules "
               "of CmpLineOrder), each proved sound for the modelled loops (regions_do_not_overlap for the region-growing loop, "
